@@ -101,6 +101,13 @@ def run(ctx):
     if "OrderInv" not in res["violations"]:
         raise Machinery("arrival-order writer no longer violates OrderInv in the model: model drifted")
     ctx.extra["arrival_order_writer_counterexample_found"] = True
+    # the re-ordering writer, for every N and every arrival order: a TLAPS proof (the unbounded core of OrderInv / DoneOK)
+    ctx.tlaps("ReorderWriter")
+    # --aggregate: arrival order and Go's map iteration order are arbitrary; the output sequence is unique iff the sort key is total
+    ctx.tlc("Aggregate", "MC_Aggregate.cfg", workers=8)
+    res = ctx.tlc("Aggregate", "MC_Aggregate_AsCoded.cfg", workers=4, expect_violation=True, tag="agg_ascoded", count=False)
+    if "Deterministic" not in res["violations"]:
+        raise Machinery("the original (non-total) aggregate sort key no longer violates Deterministic: model drifted")
     ctx.build(race=not quick)
     gates = kernel.tlc_gen(ctx, "GenPipeline", "GenPipeline_quick.cfg" if quick else "GenPipeline.cfg", timeout=3000)
     gate_inproc = [dict(g, fam="pipe", sig=g["cmd"]) for g in gates if g["cmd"] != "topa"]
